@@ -170,7 +170,14 @@ impl ServerState {
   pub fn update(&mut self, updates: Vec<(ModuleReference, String)>) {
     let mut error_set = ErrorSet::new();
     let initial_update_set = updates.iter().map(|(m, _)| *m).collect::<HashSet<_>>();
-    for (mod_ref, source_code) in updates {
+    // A module listed more than once takes its last text: the syntax errors of an earlier,
+    // overwritten text must not stay behind.
+    let last_update_index =
+      updates.iter().enumerate().map(|(i, (m, _))| (*m, i)).collect::<HashMap<_, _>>();
+    for (i, (mod_ref, source_code)) in updates.into_iter().enumerate() {
+      if last_update_index.get(&mod_ref) != Some(&i) {
+        continue;
+      }
       let parsed = samlang_parser::parse_source_module_from_text(
         &source_code,
         mod_ref,
